@@ -43,6 +43,7 @@ DOCS = [
     "@article{n1, author = {von Beethoven, Ludwig and {Simon and Schuster}}, editor = {Aa bb Cc dd}, title = {T}}\n",
     "@STRING{x = {1}}\n@Article{K, Title = {Mixed Case}, AUTHOR = {A B}}\n",
 ]
+BOM_DOCS = ["\ufeff@article{k, title = {T}}\n", "\ufeff% c\n@a{k}\n", "@a{k, t = {x\ufeffy}}\n\ufeff", "\ufeff"]
 NONASCII = {
     "utf-8": "@article{ké, title = {Ünïcödé 中文 λ}, author = {Ærø Åse}}\n% commentaire é\n",
     "latin-1": "@article{ké, title = {Ünïcödé ÿ}, author = {Ærø Åse}}\n% commentaire é\n",
@@ -96,6 +97,12 @@ def cases(tier, seed, shard, nshards):
                 idx += 1
                 if idx % nshards == shard:
                     yield {"k": "parse_file", "doc": d, "enc": enc, "pos": pos, "stack": st}
+    for enc in ("utf-8", "UTF8", "utf_8", None, "utf-16", "utf-8-sig"):
+        for d in range(len(BOM_DOCS)):
+            for pos, st in (("none", []), ("parse_stack", []), ("append", [["probe", "A"]])):
+                idx += 1
+                if idx % nshards == shard:
+                    yield {"k": "parse_file", "doc": -2 - d, "enc": enc, "pos": pos, "stack": st}
     for target in ("path", "stringio", "fileobj"):
         for d in range(len(DOCS)):
             for pos, st in (("unparse", [["probe", "A"], ["ship", "AddEnclosingQ"]]), ("prepend", [["probe", "B"], ["probe", "A"]]), ("none", []), ("unparse", [])):
@@ -234,6 +241,8 @@ def fold(lib, mws):
 
 
 def doc_text(case):
+    if case["doc"] <= -2:
+        return BOM_DOCS[-2 - case["doc"]]
     if case["doc"] == -1:
         return NONASCII[case["enc"]]
     return DOCS[case["doc"]]
@@ -373,7 +382,8 @@ def foreign_opens(events, target):
 def check_parse_file(case, ctx):
     import bibtexparser
     text = doc_text(case)
-    enc = case["enc"]
+    enc_arg = case["enc"]
+    enc = enc_arg or "utf-8"           # None = call parse_file without the encoding argument (documented default UTF-8)
     try:
         data = text.encode(enc)
     except UnicodeEncodeError:
@@ -388,7 +398,8 @@ def check_parse_file(case, ctx):
     with warnings.catch_warnings(record=True) as wlist:
         warnings.simplefilter("always", ResourceWarning)
         with audit.watch() as events:
-            st_a, got = sp.escape(lambda: bibtexparser.parse_file(p, encoding=enc, **call_kwargs_parse(case["pos"], case["stack"], log_a)))
+            ekw = {"encoding": enc_arg} if enc_arg else {}
+            st_a, got = sp.escape(lambda: bibtexparser.parse_file(p, **ekw, **call_kwargs_parse(case["pos"], case["stack"], log_a)))
             opened = list(events)
         gc.collect()
         leaks = [str(w.message) for w in wlist if issubclass(w.category, ResourceWarning)]
